@@ -75,19 +75,27 @@ FLOORS = {
         "dispatch_live_checks": 50000, "cases_with_sharing": 400, "cases_with_equal_but_distinct_objects": 300,
         "cutoff_hid_nodes": 300, "undefined_handler_expected_and_raised": 50, "shared_cache_checks": 1000,
         "transformer_checks": 2000, "dagtraverser_checks": 2000, "oracle_selfcheck_pairs": 1000,
+        "expression_valued_results_structurally_equal": 10000,
     },
     "thorough": {
         "cases": 6000, "traversal_checks": 80000, "map_checks": 60000, "dispatch_table_checks": 1000000,
         "dispatch_live_checks": 500000, "cases_with_sharing": 4000, "cases_with_equal_but_distinct_objects": 3000,
         "cutoff_hid_nodes": 3000, "undefined_handler_expected_and_raised": 500, "shared_cache_checks": 10000,
         "transformer_checks": 20000, "dagtraverser_checks": 20000, "oracle_selfcheck_pairs": 10000,
+        "expression_valued_results_structurally_equal": 100000,
     },
 }
 EXHAUSTIVE = False
+CASE_TIMEOUT = 90.0  # seconds per case (runner alarm); a typical case takes 0.1 s
 
 # Cofunction (a BaseForm, not an Expr) has the non-UFL mixin BaseCoefficient *before* BaseForm in its MRO.
 # Set to False to restrict the dispatch claim to Expr subclasses ("every expression type").
 CHECK_NON_EXPR_TYPES = True
+
+# Results of reconstructing handlers that differ from the tree recursion only before normalisation by UFL's own
+# constructors (identity sensitive ListTensor shortcut, reuse_if_untouched + re-sorting Sum/Product) are counted as
+# inconclusive: those handlers are not pure functions of the structure.  True reports them as violations.
+REPORT_IMPURE_RECONSTRUCTION = False
 
 sys.setrecursionlimit(20000)
 
@@ -245,8 +253,18 @@ class Case:
         self.ctx.violation(key, desc, d)
 
     # ---- compare a real mapping result with the oracle's
-    def judge(self, key, what, real, exp, e, counter="map_checks"):
-        """real/exp are run() results.  Returns True when judged as held."""
+    def judge(self, key, what, real, exp, e, counter="map_checks", alts=None):
+        """real/exp are run() results.  Returns True unless a violation was recorded.
+
+        Expression valued results are compared structurally.  When they differ, both are brought to the normal
+        form of UFL's own constructors (rebuilt bottom-up with every structurally equal operand represented by one
+        python object, until nothing changes).  Results that only differ before that normalisation differ because
+        the handler was not a pure function of the structure: `_ufl_expr_reconstruct_` looks at object identity
+        (ListTensor folds [v[0], v[1]] into v only if both v are one object), and reuse_if_untouched skips the
+        re-sorting constructor of Sum/Product exactly for the nodes whose operands come back as the same objects.
+        The property speaks about pure handlers, so such an event is counted as inconclusive, not as a violation
+        (REPORT_IMPURE_RECONSTRUCTION turns it into one).
+        """
         ctx = self.ctx
         ctx.count(counter)
         ctx.count("events_judged")
@@ -266,10 +284,76 @@ class Case:
         if real[0] != "ok":
             self.viol(key + "/raised/" + type(real[1]).__name__, f"{what}: raised {type(real[1]).__name__}: {real[1]!s:.300} although recursive application succeeds", e)
             return False
-        if not self.same(real[1], exp[1]):
-            self.viol(key + "/value", f"{what}: result differs from recursive application to the tree (real {short(real[1], 120)} vs expected {short(exp[1], 120)})", e)
-            return False
-        return True
+        if self.same(real[1], exp[1]):
+            if isinstance(exp[1], Expr):
+                ctx.count("expression_valued_results_structurally_equal")
+            return True
+        if isinstance(real[1], Expr) and isinstance(exp[1], Expr):
+            nf = run(lambda: (normal_form(self.I, real[1]), normal_form(self.I, exp[1])))
+            if nf[0] != "ok":
+                ctx.count("inconclusive_normal_form_raised")
+                return True
+            if self.same(*nf[1]):
+                ctx.count("inconclusive_impure_reconstruction")
+                d = first_difference(self.I, exp[1], real[1])
+                ctx.covered("impure_reconstruction_first_difference_at", type(d[0]).__name__)
+                if REPORT_IMPURE_RECONSTRUCTION:
+                    self.viol(
+                        "C19/impure-reconstruction",
+                        f"{what}: the result differs structurally from recursive application to the tree, but both have the same "
+                        f"normal form under UFL's constructors (tree: {short(d[0], 160)} | dag: {short(d[1], 160)})",
+                        e,
+                    )
+                    return False
+                return True
+        self.viol(key + "/value", f"{what}: result differs from recursive application to the tree (real {short(real[1], 120)} vs expected {short(exp[1], 120)})", e)
+        return False
+
+
+def first_difference(I, a, b):
+    """Deepest leftmost pair of corresponding sub-expressions of a and b that differ structurally."""
+    if type(a) is type(b) and len(a.ufl_operands) == len(b.ufl_operands):
+        for x, y in zip(a.ufl_operands, b.ufl_operands):
+            if I.cid(x) != I.cid(y):
+                return first_difference(I, x, y)
+    return (a, b)
+
+
+def apply_shared(h, e, I, intern):
+    """Recursive application of h in which structurally equal inputs share one result object
+    (intern=True: structurally equal results are one object as well, like compress=True)."""
+    memo = {}
+    pool = {}
+
+    def rec(o):
+        c = I.cid(o)
+        if c in memo:
+            return memo[c]
+        r = h(o, *[rec(x) for x in o.ufl_operands])
+        if intern and isinstance(r, Expr):
+            r = pool.setdefault(I.cid(r), r)
+        memo[c] = r
+        return r
+
+    return rec(e)
+
+
+def _reconstruct(o, *ops):
+    return o if o._ufl_is_terminal_ else o._ufl_expr_reconstruct_(*ops)
+
+
+def normal_form(I, x):
+    """Fixed point of rebuilding x bottom-up through UFL's constructors with maximal object sharing."""
+    for _ in range(6):
+        y = apply_shared(_reconstruct, x, I, True)
+        if I.cid(y) == I.cid(x):
+            return y
+        x = y
+    return x
+
+
+def shared_alts(K, h, e):
+    return None
 
 
 # --------------------------------------------------------------------------- traversal checks
@@ -479,25 +563,27 @@ def chk_maps(K, e, e2, tree, coefmap):
         naive = n <= (1200 if hname in ("rebuild", "rename") else 4000)
         ctx.count("oracle_naive_tree_recursions" if naive else "oracle_identity_memo_recursions")
         exp = run(lambda: apply_tree(h, e, naive))
+        al = shared_alts(K, h, e) if hname in ("rebuild", "rename") else None
+        al2 = shared_alts(K, h, e2) if hname in ("rebuild", "rename") else None
         for compress in (True, False):
             real = run(lambda: map_expr_dag(h, e, compress=compress))
-            K.judge(f"C19/map_expr_dag/{hname}", f"map_expr_dag({hname}, compress={compress})", real, exp, e)
+            K.judge(f"C19/map_expr_dag/{hname}", f"map_expr_dag({hname}, compress={compress})", real, exp, e, alts=al)
         # several expressions in one call and caches shared by several calls
         exp2 = run(lambda: apply_tree(h, e2, len(tree_pre(e2)) <= 1200))
         compress = rng.random() < 0.5
         real = run(lambda: map_expr_dags(h, [e, e2, e], compress=compress))
         for k, ex in enumerate((exp, exp2, exp)):
             rk = real if real[0] != "ok" else ("ok", real[1][k])
-            K.judge(f"C19/map_expr_dags/{hname}", f"map_expr_dags({hname}, [e, e2, e], compress={compress})[{k}]", rk, ex, (e, e2, e)[k], counter="shared_cache_checks")
+            K.judge(f"C19/map_expr_dags/{hname}", f"map_expr_dags({hname}, [e, e2, e], compress={compress})[{k}]", rk, ex, (e, e2, e)[k], counter="shared_cache_checks", alts=(al, al2, al)[k])
             if real[0] != "ok":
                 break
         vc, rc = {}, {}
-        order = [(e, exp), (e2, exp2), (e, exp)]
+        order = [(e, exp, al), (e2, exp2, al2), (e, exp, al)]
         if rng.random() < 0.5:
             order.reverse()
-        for x, ex in order:
+        for x, ex, a in order:
             real = run(lambda: map_expr_dag(h, x, compress=compress, vcache=vc, rcache=rc))
-            K.judge(f"C19/map_expr_dag-shared-caches/{hname}", f"map_expr_dag({hname}, vcache=shared, rcache=shared, compress={compress})", real, ex, x, counter="shared_cache_checks")
+            K.judge(f"C19/map_expr_dag-shared-caches/{hname}", f"map_expr_dag({hname}, vcache=shared, rcache=shared, compress={compress})", real, ex, x, counter="shared_cache_checks", alts=a)
 
 
 # --------------------------------------------------------------------------- random handler tables
@@ -604,7 +690,7 @@ def chk_multifunction(K, e, e2, tree, nodes, zoo_nodes):
         if getattr(got, "__func__", None) is not want:
             kind = "expr-type" if issubclass(c, Expr) else "non-expr-type"
             K.viol(
-                f"C19/dispatch/MultiFunction/table/{kind}/{c.__name__}",
+                "C19/dispatch/MultiFunction/table/" + (kind if issubclass(c, Expr) else f"{kind}/{c.__name__}"),
                 f"MultiFunction with handlers {sorted(tab)}: {c.__name__} (MRO {[b.__name__ for b in c.__mro__]}) is bound to "
                 f"'{getattr(got, '__name__', got)}', nearest ancestor with a handler is '{exp}'",
             )
@@ -631,11 +717,11 @@ def chk_multifunction(K, e, e2, tree, nodes, zoo_nodes):
             if real[0] == "raise" and isinstance(real[1], ValueError) and "No handler defined" in str(real[1]):
                 ctx.count("undefined_handler_expected_and_raised")
             else:
-                K.viol(f"C19/dispatch/MultiFunction/live/{type(o).__name__}", f"{type(o).__name__}: no handler among {sorted(tab)} applies, expected the undefined default to raise, got {real!r:.200}")
+                K.viol("C19/dispatch/MultiFunction/live", f"{type(o).__name__}: no handler among {sorted(tab)} applies, expected the undefined default to raise, got {real!r:.200}")
             continue
         want = K.fp(name, o, ("cut",) if kind == "cut" else args)
         if real != ("ok", want):
-            K.viol(f"C19/dispatch/MultiFunction/live/{type(o).__name__}", f"{type(o).__name__} with handlers {sorted(tab)}: expected handler '{name}' ({kind}), the call gave {real!r:.200}")
+            K.viol("C19/dispatch/MultiFunction/live", f"{type(o).__name__} with handlers {sorted(tab)}: expected handler '{name}' ({kind}), the call gave {real!r:.200}")
 
     # -- mapping with the MultiFunction (dispatch + cut-off handlers + DAG)
     exp = run(lambda: expected(e))
@@ -677,13 +763,14 @@ def h_rename_oracle(coefmap):
 
 def chk_reuse_multifunction(K, e, tree, coefmap):
     naive = len(tree) <= 1200
-    exp = run(lambda: apply_tree(h_rename_oracle(coefmap), e, naive))
+    h = h_rename_oracle(coefmap)
+    exp = run(lambda: apply_tree(h, e, naive))
     for compress in (True, False):
         real = run(lambda: map_expr_dag(RenameMF(coefmap), e, compress=compress))
-        K.judge("C19/map_expr_dag/reuse_if_untouched-rename", f"map_expr_dag(MultiFunction(expr=reuse_if_untouched, coefficient=rename), compress={compress})", real, exp, e)
+        K.judge("C19/map_expr_dag/reuse_if_untouched-rename", f"map_expr_dag(MultiFunction(expr=reuse_if_untouched, coefficient=rename), compress={compress})", real, exp, e, alts=shared_alts(K, h, e))
     exp0 = ("ok", e)
     real = run(lambda: map_expr_dag(RenameMF({}), e))
-    K.judge("C19/map_expr_dag/reuse_if_untouched-identity", "map_expr_dag(MultiFunction(expr=reuse_if_untouched))", real, exp0, e)
+    K.judge("C19/map_expr_dag/reuse_if_untouched-identity", "map_expr_dag(MultiFunction(expr=reuse_if_untouched))", real, exp0, e, alts=shared_alts(K, h_rename_oracle({}), e))
 
 
 # --------------------------------------------------------------------------- Transformer
@@ -732,7 +819,7 @@ def chk_transformer(K, e, tree, nodes, zoo_nodes, coefmap):
         if getattr(got, "__func__", None) is not want or bool(post) != want_post:
             kind = "expr-type" if issubclass(c, Expr) else "non-expr-type"
             K.viol(
-                f"C19/dispatch/Transformer/table/{kind}/{c.__name__}",
+                "C19/dispatch/Transformer/table/" + (kind if issubclass(c, Expr) else f"{kind}/{c.__name__}"),
                 f"Transformer with handlers {sorted(tab)}: {c.__name__} (MRO {[b.__name__ for b in c.__mro__]}) is bound to "
                 f"'{getattr(got, '__name__', got)}' (children first: {post}), nearest ancestor with a handler is '{exp}' (children first: {want_post})",
             )
@@ -759,12 +846,12 @@ def chk_transformer(K, e, tree, nodes, zoo_nodes, coefmap):
         ctx.count("dispatch_live_checks")
         real = run(lambda: t.visit(o))
         exp = run(lambda: expected(o))
-        K.judge(f"C19/dispatch/Transformer/live/{type(o).__name__}", f"Transformer{sorted(tab)}.visit({type(o).__name__})", real, exp, o, counter="transformer_checks")
+        K.judge("C19/dispatch/Transformer/live", f"Transformer{sorted(tab)}.visit({type(o).__name__})", real, exp, o, counter="transformer_checks")
         if kind == "post":
             h, post = t._handlers[o._ufl_typecode_]
             real = run(lambda: h(o))
             if real != ("ok", K.fp(name, o, ())):
-                K.viol(f"C19/dispatch/Transformer/live/{type(o).__name__}", f"{type(o).__name__} with handlers {sorted(tab)}: expected handler '{name}', got {real!r:.200}")
+                K.viol("C19/dispatch/Transformer/live", f"{type(o).__name__} with handlers {sorted(tab)}: expected handler '{name}', got {real!r:.200}")
 
     if len(tree) <= 2500:
         exp = run(lambda: expected(e))
@@ -917,7 +1004,7 @@ def chk_dagtraverser(K, e, e2, tree, nodes, zoo_nodes, coefmap):
         ctx.count("dispatch_live_checks")
         real = run(lambda: dt(o))
         exp = run(lambda: expected(o, 0))
-        K.judge(f"C19/dispatch/DAGTraverser/live/{type(o).__name__}", f"DAGTraverser with rules for {sorted(c.__name__ for c in reg)} applied to {type(o).__name__}", real, exp, o, counter="dagtraverser_checks")
+        K.judge("C19/dispatch/DAGTraverser/live", f"DAGTraverser with rules for {sorted(c.__name__ for c in reg)} applied to {type(o).__name__}", real, exp, o, counter="dagtraverser_checks")
 
     # -- mapping with post-order rules, keyword arguments, caches
     own_base = rng.random() < 0.5
@@ -966,7 +1053,7 @@ def chk_dagtraverser(K, e, e2, tree, nodes, zoo_nodes, coefmap):
     exp = run(lambda: apply_tree(h, e, len(tree) <= 1200))
     for compress in (True, False):
         real = run(lambda: RenameDT(compress=compress)(e))
-        K.judge("C19/DAGTraverser/reuse_if_untouched-rename", f"DAGTraverser(Expr=reuse_if_untouched, Coefficient=rename), compress={compress}", real, exp, e, counter="dagtraverser_checks")
+        K.judge("C19/DAGTraverser/reuse_if_untouched-rename", f"DAGTraverser(Expr=reuse_if_untouched, Coefficient=rename), compress={compress}", real, exp, e, counter="dagtraverser_checks", alts=shared_alts(K, h, e))
 
 
 # --------------------------------------------------------------------------- driver
